@@ -162,9 +162,13 @@ def layer_compile(run, f, rule='R11.lcompile'):
     embeds = []
     compiled = False
     for st, ctx in walk(f.node):
-        if isinstance(st, ast.Assign) and isinstance(st.targets[0], ast.Attribute) and norm(st.targets[0].value) == 'self' \
-                and not ctx.loops:
-            inits[st.targets[0].attr] = norm(st.value).replace(' ', '')
+        if isinstance(st, ast.Assign) and not ctx.loops:
+            tg = [t for t in st.targets if isinstance(t, ast.Attribute) and norm(t.value) == 'self']
+            for t in tg:
+                inits[t.attr] = norm(st.value).replace(' ', '')
+            if len(tg) > 1 and {t.attr for t in tg} >= {'forward_map', 'backward_map'}:
+                run.violation(rule, f, st, 'forward and backward layer maps are bound to ONE object: every in-place embed of a backward map '
+                              'overwrites the forward map (the two maps must be separate identity maps)')
         if isinstance(st, ast.Expr) and isinstance(st.value, ast.Call) and isinstance(st.value.func, ast.Attribute):
             c = st.value
             if c.func.attr == 'compile' and ctx.loops:
